@@ -82,6 +82,35 @@ CHECKS = [
      BASE_NOTE + "The median-heuristic warning is not modelled; eer()/auc()/interior thresholds are tied to the real "
      "Scores object (same code) rather than to the model; NaN/inf scores are outside the rational model.",
      "Lean 4 proof about a hand-written model + differential correspondence check", "DESIGN.md §5 C19"),
+ chk("C05",
+     "Lean theorems C05_entry / C05_entry_by_label / C05_default_classes prove for ALL class lists without duplicates, "
+     "sample lists and rational weights that the accumulation loop yields entry [i,j] = total weight of the samples with "
+     "label classes[i] and prediction classes[j] (KeyError / ValueError branches: C05_key_error, C05_value_error); "
+     "C05_reorder / C05_routes_commute / C05_array_route / C05_dict_route / C05_frame_route prove that any class "
+     "reordering and the array, dict-of-dicts and DataFrame routes give the same matrix in the requested order; "
+     "C05_ova_conserves / C05_ova_cells / C05_ova_marginals / C05_ova_nonneg prove population conservation and "
+     "TP/P/TOP = diagonal/row sum/column sum for every N x N rational matrix; C05_class_rates / C05_as_dict / "
+     "C05_class_metric_length / C05_equivariant / C05_equivariant_metrics / C05_accuracy prove the per-class metric "
+     "formulas, the as_dict form, shape, permutation equivariance and accuracy = trace/population. Tied to /repo by "
+     "building real ConfusionMatrix objects through all four routes (int/str classes in arbitrary order, none/int/float "
+     "weights, stacks with leading shapes (), (2,), (2,3), (0,)), comparing matrices, classes, one_vs_all cells, 20 per-class "
+     "metrics + CIs + aliases + as_dict with the model and evaluating the Lean spec predicates on the observed values; "
+     "error branches are compared as exceptions.",
+     BASE_NOTE + "hashable class labels are mapped to Nat codes by the harness (order-preserving, so np.unique = sorted "
+     "dedup); pandas .loc and numpy fancy indexing by documented meaning; the leading shape X is handled member-wise; "
+     "float-weight sums compared with relative tolerance 1e-9, quotients 1e-12.",
+     "Lean 4 proof about a hand-written model + differential correspondence check", "DESIGN.md §5 C05"),
+ chk("C08",
+     "Lean theorems: C08_swap_cm / C08_swap_rates (at every threshold incl. +-inf the matrix of swap() is the original with "
+     "rows and columns exchanged, hence FPR/TPR/TOPR <-> FNR/TNR/TONR), C08_negate_cm (negated scores + flipped score_class: "
+     "same matrix at the negated threshold), C08_affine_cm (a>0: same matrix at a*t+b), C08_affine_threshold (every "
+     "threshold returned by threshold setting is mapped by t -> a*t+b: all metrics, methods, targets, easy counts; sentinels "
+     "via an oracle-compatibility hypothesis) — all for arbitrary lists. Tied to /repo by running the original, swap(), the "
+     "negated and an affine image through the real API, tying each to the model (op cm) and evaluating the relations on the "
+     "observed outputs; threshold negation, EER and AUC equivariance are evaluated as relations between two real runs.",
+     BASE_NOTE + "Negation equivariance of thresholds (exact only away from the asymmetric special-case regions; a few ulp in "
+     "floats), and EER/AUC equivariance are evaluated on every case, not proved; EER relations are claimed for tie-free scores.",
+     "Lean 4 proof about a hand-written model + metamorphic correspondence check", "DESIGN.md §5 C08"),
 ]
 
 ALL = [f"C{i:02d}" for i in range(1, 21)]
